@@ -751,6 +751,13 @@ fn parse_expr(
 
                                 return Ok((Expr::ReferenceToConstructor(class_ty), Some(primary_pair)))
                             }
+                            own_name if user_data.get_type_of_executing_class().is_some_and(|c| c.name() == own_name) => {
+                                // inside its own body a class is reached through its export, exactly like `Self`:
+                                // the name itself is only bound once the whole class has been built
+                                let class_ty = user_data.get_type_of_executing_class().unwrap().clone();
+
+                                return Ok((Expr::ReferenceToConstructor(class_ty), Some(primary_pair)))
+                            }
                             "true" => return Ok((Expr::Value(Value::Boolean(true)), Some(primary_pair))),
                             "false" => return Ok((Expr::Value(Value::Boolean(false)), Some(primary_pair))),
                             _ => ()
